@@ -446,7 +446,10 @@ func c17r1(c *Ctx) {
 // R2: entry points return (nil, err) or (out, nil): whenever the error operand of a return is not the nil constant the
 // output operand is the nil constant (so no caller can mistake a failed call for a result).
 func c17r2(c *Ctx) {
-	const rule = "C17-R2"
+	resultShapeRule(c, "C17-R2")
+}
+
+func resultShapeRule(c *Ctx, rule string) {
 	c.Rule(rule, "entry points never return an output together with an error", 100)
 	for _, fn := range c.P.EntryPoints() {
 		fns := []*ssa.Function{fn}
